@@ -343,6 +343,36 @@ def mapped_rule(chk, db):
     return total
 
 
+def fullprod_rule(chk, db):
+    """FULLPROD: size() / required_span_size() of mdspan, mdarray and the contiguous layout mappings multiply *all* extents: the
+    argument of `fwd_prod_of_extents` / `rev_prod_of_extents` there is `rank()` (for rev: 0), not `rank_dynamic()` or a
+    literal -- the product of a prefix counts only part of the index space."""
+    n = 0
+    for f in db.funcs:
+        if f.get("body") is None or not (f["file"].startswith("_mdspan/") or f["file"].startswith("_mdarray/")):
+            continue
+        if f["n"] not in ("size", "required_span_size", "empty"):
+            continue
+        for x in astx.all_exprs(f, into_lambdas=True):
+            if x.get("k") != "call" or astx.callee(x)[0] not in ("fwd_prod_of_extents", "rev_prod_of_extents") or len(x["a"]) != 1:
+                continue
+            n += 1
+            label = "%s :: `%s`" % (astx.sig(f), astx.show(x, 60))
+            chk.instance("FULLPROD")
+            a = astx.strip_casts(x["a"][0])
+            fwd = astx.callee(x)[0] == "fwd_prod_of_extents"
+            if fwd:
+                ok = a is not None and a.get("k") == "call" and astx.callee(a)[0] == "rank" and not a["a"]
+            else:
+                ok = a is not None and astx.int_value(a) == 0
+            chk.obligation("FULLPROD", label, ok)
+            if not ok:
+                chk.violation("FULLPROD", label, "partial-product", "%s: %s() multiplies the extents %s `%s`, not all rank() of them" % (
+                    astx.loc(f, x), f["n"], "below index" if fwd else "above index", astx.show(a, 30)), {"where": astx.loc(f)})
+    if n < 2:
+        chk.analysis_broken("FULLPROD: only %d total-size products found in mdspan / mdarray / layout mappings (floor 2)" % n)
+
+
 def transpose_rule(chk, db):
     """TRANSP: layout_transpose::mapping::stride(r) is the nested mapping's stride with the last two dimensions exchanged
     ([linalg.transp.layout.transpose]): r == rank-1 -> stride(r-1), r == rank-2 -> stride(r+1), otherwise stride(r).
@@ -600,6 +630,7 @@ def run(chk, tier):
     guard_rule(chk, db)
     dynslot_rule(chk, db)
     mapped_rule(chk, db)
+    fullprod_rule(chk, db)
     transpose_rule(chk, db)
     transpose_extents_rule(chk, db)
     rel.check(chk, db, ["_array/array.hpp", "_mdspan/layout_left.hpp", "_mdspan/layout_right.hpp", "_linalg/layout_transpose.hpp"])
